@@ -131,6 +131,9 @@ func (i *interpreter) checkGlobalInit(g *ssa.Global) {
 	if g.Pkg == nil || i.inited[g.Pkg] || !i.initWrite[g] {
 		return
 	}
+	if i.cfg.HarnessGlobals[g.String()] || i.cfg.HarnessGlobals[g.Name()] {
+		return // the harness states that it initialises this global itself
+	}
 	if i.curFrame != nil && i.curFrame.fn.Pkg == g.Pkg && i.curFrame.fn.Synthetic == "package initializer" {
 		return
 	}
